@@ -20,6 +20,7 @@ import json
 import os
 import sys
 import typing
+import uuid
 
 from ..kernel import SRC, HarnessError
 
@@ -54,6 +55,9 @@ LEAVES = {
                                      ("2021-06-07T08:09:10+02:00", datetime.datetime(2021, 6, 7, 8, 9, 10, tzinfo=datetime.timezone(datetime.timedelta(hours=2))))], "not-a-date"),
     "date": (datetime.date, [("2020-01-02", datetime.date(2020, 1, 2)), ("1999-12-31", datetime.date(1999, 12, 31))], "nope"),
     "enum": (Color, [("red", Color.RED), ("blue", Color.BLUE)], "purple"),
+    "uuid": (uuid.UUID, [("123e4567-e89b-12d3-a456-426614174000", uuid.UUID("123e4567-e89b-12d3-a456-426614174000")),
+                         ("00000000-0000-0000-0000-000000000000", uuid.UUID(int=0))], "not-a-uuid"),
+    "time": (datetime.time, [("03:04:05", datetime.time(3, 4, 5)), ("23:59:59.500000", datetime.time(23, 59, 59, 500000))], "25:99"),
 }
 KEYMAPS = ["none", "renamed", "keyword", "casefold"]
 
